@@ -4,10 +4,28 @@ import Mimium.Proofs.CstBuilder
 /-!
 # C13 — tokens and syntax tree are lossless over the source text
 
-Model: `Model/Lexer.lean` (tokenizer incl. `split_projection_float_tokens`), `Model/Preparse.lean`, `Model/CstBuilder.lean`.
-All theorems quantify over every input text `s : List Char`, every character classification `C` (XID start/continue,
-external to the model) and every token table `T` satisfying the decidable side condition `TablesOk`, which is `decide`d
-for the tables re-extracted from `/repo` (`C13_generated_tables_ok`).
+Models: `Model/Lexer.lean` (tokenizer loop incl. `split_projection_float_tokens`; text = `List Char`, positions = UTF-8 byte
+offsets), `Model/Preparse.lean` (literal port of `preparse`, plus one ghost field), `Model/CstBuilder.lean` (builder stack,
+`bump`, `Parser::parse`'s outer loop; grammar functions abstracted to sequences of primitives).
+
+PROVED here, for every input text `s : List Char`, every character classification `C` (XID start/continue — external to the
+model) and every token table `T` with the decidable side condition `TablesOk` (re-`decide`d on the tables re-extracted from
+`/repo`: `C13_generated_tables_ok`):
+* totality (`C13_step_consumes`, `C13_loop_total`, `C13_loop_is_recursion_on_remaining_input`);
+* tiling (`C13_tokens_contiguous`, `C13_tokens_end_marker`, `C13_tokens_on_char_boundaries`, `C13_tokens_concat_is_source`),
+  the splitter preserves it (`C13_split_preserves_tiling`);
+* for every kind sequence: `token_indices` = the syntax tokens in order (`C13_token_indices_are_syntax_tokens`); each trivia token
+  is attached exactly once unless it is in the class `dropped` (`C13_trivia_accounting`, `C13_trivia_partition_partial`), the class
+  is exact (`C13_dropped_iff_unattached`), attachments go to the neighbouring syntax token (`C13_trivia_attached_to_neighbour`);
+  the unrestricted trivia clause is REFUTED on the tokens of `" \na"` (`C13_trivia_attached_counterexample`, finding F7);
+* for every bracketed sequence of builder primitives the tree's leaves are the bumped tokens in order, each once
+  (`C13_cst_leaves_are_bumped_tokens`); with `Parser::parse`'s loop and any bracket-neutral `parse_statement`, all of
+  `token_indices` (`C13_cst_has_every_syntax_token_once`, `C13_pipeline_cst_lossless`).
+
+NOT proved here (tied by the correspondence run and by `tools/extract.py`'s shape checks): that the Rust functions compute what
+the models compute; that the grammar functions of `cst_parser.rs` only use the primitives in a bracket-neutral way (checked
+textually: only `bump` calls `add_token`/moves `current`; `start_node*`/`finish_node` counts agree per function) — the real
+tree's leaves are compared with `token_indices` on every case.  `red.rs` (offsets without trivia) is not modelled.
 -/
 namespace Mimium.Props.C13
 open Mimium.Gen (Kind)
@@ -30,6 +48,13 @@ theorem C13_loop_total (C : Classes) (T : Tables) (ok : TablesOk T = true) (cs :
     lexLoop C T fuel cs = lex C T cs ∧ (lex C T cs).flatMap (·.text) = cs :=
   ⟨lexLoop_fuel (tablesOk_iff T ok) C fuel cs h cs.length (Nat.le_refl _),
    (lexLoop_spec (tablesOk_iff T ok) C cs.length cs (Nat.le_refl _)).1⟩
+
+/-- Totality, as the statement asks for it: the loop written as plain recursion on the remaining input (`lexWF`) is accepted
+by Lean's termination checker (measure: remaining length; decrease: `C13_step_consumes`), and the executable model
+computes the same token list. -/
+theorem C13_loop_is_recursion_on_remaining_input (C : Classes) (T : Tables) (ok : TablesOk T = true) (cs : List Char) :
+    lexWF C T ok cs = lex C T cs :=
+  lexWF_eq_lex C T ok cs.length cs (Nat.le_refl _)
 
 /-- The splitter (`split_projection_float_tokens`) preserves tiling: for ANY lexeme list and any previous kind the
 concatenation of texts is unchanged, and non-empty non-`Eof` pieces stay non-empty non-`Eof`. -/
@@ -192,6 +217,13 @@ theorem C13_cst_has_every_syntax_token_once (ks : List Kind) (widths : List Nat)
     simp only [Green.leaves, r2]
     rw [List.take_of_length_le r3]
     exact preparse_tokenIndices ks
+
+/-- End to end: for every text, the tree built from `tokenize` → `preparse` → `parse` (any bracket-neutral grammar) has as
+token leaves exactly the non-trivia, non-`Eof` tokens of the text, each once, in source order. -/
+theorem C13_pipeline_cst_lossless (C : Classes) (T : Tables) (s : List Char) (stmt : PState → List Op) (hn : Neutral stmt) :
+    ∃ g, (parse ⟨(tokenize C T s).map Token.len, (preparse ((tokenize C T s).map Token.kind)).tokenIndices⟩ stmt).root = some g ∧
+      g.leaves = syntaxIndices 0 ((tokenize C T s).map Token.kind) :=
+  C13_cst_has_every_syntax_token_once _ _ (by simp) stmt hn
 
 /-- non-vacuity of the builder theorem: a Pratt-style `start_node_at` wrap keeps the leaves in order -/
 example : ((exec ⟨[1, 1, 1], [0, 1, 2]⟩ (run ⟨[1, 1, 1], [0, 1, 2]⟩ ⟨[⟨0, []⟩], 0, none⟩
